@@ -15,6 +15,9 @@ def main():
         if not os.path.isdir(d) or name.startswith("_") or (sel and not any(s in name for s in sel)):
             continue
         meta = json.load(open(os.path.join(d, "meta.json")))
+        if meta.get("neutralised_by"):
+            print(f"{name:55s} skipped: no longer a property break since fix {meta['neutralised_by']} (its demo passes on the patched tree)")
+            continue
         own = meta["breaks_property"]
         checks = [own] if own in meta["caught_by"] else meta["caught_by"][:1]
         w = tempfile.mkdtemp(prefix="vk_seeded_")
